@@ -144,8 +144,9 @@ def chain_future(
 ) -> None:
     """Chain two futures together so that when one completes, so does the other.
 
-    The result (success or failure) of ``a`` will be copied to ``b``, unless
-    ``b`` has already been completed or cancelled by the time ``a`` finishes.
+    The result (success, failure or cancellation) of ``a`` will be copied to
+    ``b``, unless ``b`` has already been completed or cancelled by the time ``a``
+    finishes.
 
     .. versionchanged:: 5.0
 
@@ -157,7 +158,11 @@ def chain_future(
     def copy(a: "Future[_T]") -> None:
         if b.done():
             return
-        if hasattr(a, "exc_info") and a.exc_info() is not None:  # type: ignore
+        if a.cancelled():
+            # exception() and result() raise CancelledError (a BaseException) for a
+            # cancelled future; propagate the cancellation instead of leaving b pending.
+            b.cancel()
+        elif hasattr(a, "exc_info") and a.exc_info() is not None:  # type: ignore
             future_set_exc_info(b, a.exc_info())  # type: ignore
         else:
             a_exc = a.exception()
